@@ -25,7 +25,13 @@ MANIFEST = dict(
          "getAt_setAt_disjoint), and a whole history of such writes equals the same fold of setAt (C02_history); unbounded in "
          "tree size and history length. The model of __setitem__ is compared with the real code step by step along random "
          "write histories in every spelling; the statement (tree equals a plain dict/list reference, identity of the stored "
-         "value) is executed on the implementation.",
+         "value) is executed on the implementation. Hidden lists (fix C03-e): lookup reads a node that is not a list as the "
+         "list of this one item, so name[0] / name[-1] / name[last()] (any spelling of 0 or -1) address the existing node "
+         "itself; C02_set_hidden_list proves, unbounded, that such an assignment on the single value of a key replaces "
+         "exactly that slot (the former finding C02-a, where the write went into a temporary list: C02_set_hidden_list_ok; "
+         "a single value that is an element of a list and indexes written as steps of their own are instances + "
+         "differential); the histories and the evaluator hidden_list write through these spellings, also on nodes in the "
+         "middle of the path.",
     note="values written are fresh objects (the harness deep-copies); aliasing one object at two positions is outside the model.",
     design_ref="5/C02",
 )
@@ -175,8 +181,13 @@ def shrink_failure(evaluator, case):
     if "writes" in case:
         return case
 
+    # a path text and the record of its hidden indexes stay together (and unchanged)
+    texts = {(op.get("xp"), tuple(op.get("hid", [])), bool(op.get("hidden"))) for op in case.get("ops", [])}
+
     def ok(c):
         if not (isinstance(c.get("tree"), dict) and c.get("mode") in ("n0", "wrap") and isinstance(c.get("ops"), list)):
+            return False
+        if not all((op.get("xp"), tuple(op.get("hid", [])), bool(op.get("hidden"))) in texts for op in c["ops"]):
             return False
         # positions must exist in the evolving reference
         ref = copy.deepcopy(c["tree"])
